@@ -36,7 +36,54 @@ def dispatch(cmd, args):
     return getattr(_mods[modname], fn)(**args)
 
 
+class LibraryTimeout(Exception):
+    """a public call of the library did not return within the guard: reported like any exception it raises"""
+
+
+_timeouts = [0]
+
+
+def install_guards(seconds=60):
+    """Non-termination must become an observation, not a hung check: the outermost from_code / to_code / normalize /
+    to_json_data / from_json_data call of this process runs under a wall-clock guard (signal based; calls made while
+    a guard - the harness' own shorter one included - is already armed are left alone)."""
+    import signal
+
+    try:
+        from code_data import CodeData
+    except BaseException:  # noqa: hosts that cannot import the library report that through their commands
+        return
+    if not hasattr(signal, "setitimer"):
+        return
+
+    def alarm(signum, frame):
+        _timeouts[0] += 1
+        raise LibraryTimeout("no result within the guard")
+
+    def wrap(fn):
+        def guarded(*a, **kw):
+            if signal.getitimer(signal.ITIMER_REAL)[0] > 0:
+                return fn(*a, **kw)
+            old = signal.signal(signal.SIGALRM, alarm)
+            # after three expiries in this process the guard is short: a check must end, whatever the library does
+            signal.setitimer(signal.ITIMER_REAL, seconds if _timeouts[0] < 3 else 5)
+            try:
+                return fn(*a, **kw)
+            finally:
+                signal.setitimer(signal.ITIMER_REAL, 0)
+                signal.signal(signal.SIGALRM, old)
+        guarded.__name__ = getattr(fn, "__name__", "guarded")
+        guarded.__doc__ = getattr(fn, "__doc__", None)
+        return guarded
+
+    for name in ("to_code", "normalize", "to_json_data"):
+        setattr(CodeData, name, wrap(getattr(CodeData, name)))
+    for name in ("from_code", "from_json_data"):
+        setattr(CodeData, name, classmethod(wrap(getattr(CodeData, name).__func__)))
+
+
 def main():
+    install_guards()
     _real_stdout.write(json.dumps({"hello": VER}) + "\n")
     _real_stdout.flush()
     for line in sys.stdin:
